@@ -191,14 +191,16 @@ class MemoryBank:
         if dtr0 != start_address:
             yield _DTR0(addr, start_address)
         raw_data = [None] * start_address
+        error = None
         for loc in range(start_address, last_address + 1):
             r = yield _ReadMemoryLocation(addr)
             if r.raw_value is not None:
                 if r.raw_value.error:
-                    raise ResponseError(
+                    error = ResponseError(
                         f"Framing error while reading memory bank "
                         f"{self.address} location {loc}"
                     )
+                    break
                 raw_data.append(r.raw_value.as_integer)
             else:
                 raw_data.append(None)
@@ -208,6 +210,8 @@ class MemoryBank:
             yield _EnableWriteMemory(addr)
             yield _DTR0(addr, 2)
             yield _WriteMemoryLocationNoReply(addr, 0xFF)
+        if error:
+            raise error
         result = {}
         for memory_value in self.values:
             try:
